@@ -260,8 +260,8 @@ class Emitter:
         vs = ''.join('    %sV%d,\n' % ('#[default] ' if i == dflt else '', i) for i in range(n))
         arms = ''.join('            %d => %s::V%d,\n' % (i, name, i) for i in range(n))
         self.items.append(f'''
-{self.attrs(t)}
 #[derive(Clone, Copy)]
+{self.attrs(t)}
 pub enum {name} {{
 {vs}}}
 impl DeepRead for {name} {{
@@ -295,6 +295,7 @@ impl_dyn_sized!({name});
         deep = ''.join('        o.push(\' \'); self.%s.deep(o);\n' % acc(i) for i in range(len(fs)))
         addrs = ''.join('        self.%s.addrs(base, o);\n' % acc(i) for i in range(len(fs)))
         src = f'''
+{'#[derive(Clone)]' if sized else ''}
 {self.attrs(t)}
 pub struct {name}{body}
 impl DeepRead for {name} {{
@@ -381,6 +382,7 @@ impl_dyn_sized!({name});
                 spec_arms += '            Spec::Var(%d, v) => { assert_eq!(v.len(), %d); %s.emplace_unchecked(b) }\n' % (k, len(fs), lit_u)
         scrut = 'self' if sized else 'self.as_ref()'
         src = f'''
+{'#[derive(Clone)]' if sized else ''}
 {self.attrs(t)}
 pub enum {name} {{
 {variants}}}
@@ -528,6 +530,9 @@ def fixed_shapes():
         US(U8, FS('u16')), US(U64, FX(V(U8, 'u8'), 'u8')), US(U16, V(U32, 'u8'), style='t'),
         US(BOOL, A(BOOL, 2), V(sb, 'u32')),
         US(U8, US(U16, V(U8, 'u16'))),
+        # sized fields that need padding in front of them, then a less aligned unsized tail
+        US(U8, U32, FS('u8')), US(U8, U64, V(U8, 'u8')), US(U16, U8, U32, V(U16, 'u8')), US(U8, U16, U8, U64, FS('u16')),
+        UE('u8', 0, [], [U8, U32, V(U8, 'u8')]), UE('u8', 0, [], [U8, U64, FS('u8')], [U16, U8, U32, FX(U8, 'u8')]),
         # unsized enums (tests/src/unsized_enum; D2, D13, D8)
         UE('u8', 0, [], [U8, U16], [U32, V(U8, 'u16')]),
         UE('u8', 0, [], [I('i32')], [V(U8, 'u16')]),
@@ -618,6 +623,11 @@ def small_layer():
         for tl in tails:
             out.append(US(a, tl))
             out.append(UE('u8', 0, [], [a, tl]))
+    for a in cls:
+        for b in cls:
+            for tl in tails[:2]:
+                out.append(US(a, b, tl))
+                out.append(UE('u16', 0, [], [a, b, tl]))
     return out
 
 
